@@ -96,7 +96,11 @@ pub fn rule_line(r: &mut Rng, g: &RawGen, dec: &str) -> String {
     match r.below(5) { 0 => format!("{} {}", kw, g.number(r, dec)), 1 => format!("{} {}", g.number(r, dec), kw), 2 => format!("{} {}", kw, r.pick(NAME_WORDS)), 3 => format!("{} {}", g.money(r, dec), kw), _ => format!("{} {}% {}", kw, r.below(100), kw) }
 }
 
-fn gen_line(r: &mut Rng, g: &RawGen, lang: &str, dec: &str, rule_heavy: bool) -> String {
+fn gen_line(r: &mut Rng, g: &RawGen, lang: &str, dec: &str, rule_heavy: bool, sentinels: &[String]) -> String {
+    // the same handful of lines over and over, by every client, all through the history: whatever an
+    // evaluation leaves behind in the calculator meets the very line that left it, after later
+    // administrator calls
+    if !sentinels.is_empty() && r.chance(1, 6) { return r.pick(sentinels).clone(); }
     let name = |r: &mut Rng| -> String { if r.chance(3, 4) { r.pick(&NAME_WORDS[..6]).to_string() } else { g.name(r) } };
     if rule_heavy && r.chance(1, 3) { return rule_line(r, g, dec); }
     match r.below(14) {
@@ -114,7 +118,7 @@ fn gen_line(r: &mut Rng, g: &RawGen, lang: &str, dec: &str, rule_heavy: bool) ->
 }
 
 #[allow(clippy::too_many_arguments)]
-fn gen_text(r: &mut Rng, g: &RawGen, lang: &str, dec: &str, max_lines: u64, probes: &mut Vec<(u32, f64)>, probe_counter: &mut u32, may_probe: bool, rule_heavy: bool) -> TextSpec {
+fn gen_text(r: &mut Rng, g: &RawGen, lang: &str, dec: &str, max_lines: u64, probes: &mut Vec<(u32, f64)>, probe_counter: &mut u32, may_probe: bool, rule_heavy: bool, sentinels: &[String]) -> TextSpec {
     let n = match r.below(8) { 0 => 0, 1 => 1, _ => 1 + r.below(max_lines) } as usize;
     let mut lines = Vec::new();
     for _ in 0..n {
@@ -131,9 +135,9 @@ fn gen_text(r: &mut Rng, g: &RawGen, lang: &str, dec: &str, max_lines: u64, prob
         } else if !lines.is_empty() && r.chance(1, 8) {
             // the same line again, later in the same text
             let again = r.pick(&lines).clone();
-            if matches!(again, Line::Raw(_)) { lines.push(again); } else { lines.push(Line::Raw(gen_line(r, g, lang, dec, rule_heavy))); }
+            if matches!(again, Line::Raw(_)) { lines.push(again); } else { lines.push(Line::Raw(gen_line(r, g, lang, dec, rule_heavy, sentinels))); }
         } else {
-            lines.push(Line::Raw(gen_line(r, g, lang, dec, rule_heavy)));
+            lines.push(Line::Raw(gen_line(r, g, lang, dec, rule_heavy, sentinels)));
         }
     }
     let crlf = (0..lines.len()).map(|_| r.chance(1, 5)).collect();
@@ -175,6 +179,22 @@ impl Check for C04 {
                 events.push(Event { actor: ADMIN, op: Op::Admin(op), clock: ClockScript::Frozen { t } });
             }
         }
+        // sentinel lines of this run (integers only, so that separator changes do not alter their meaning)
+        let sentinels: Vec<String> = {
+            let mut v = Vec::new();
+            let a = r.pick(&g.rated).to_lowercase();
+            let b = r.pick(&g.rated).to_lowercase();
+            let c = r.pick(&g.rated).to_lowercase();
+            v.push(format!("{} {} + {} {}", 1 + r.below(500), a, 1 + r.below(500), b));
+            v.push(format!("{} {} - {} {}", 1000 + r.below(500), b, 1 + r.below(50), a));
+            v.push(format!("{} {} to {}", 1 + r.below(500), a, c));
+            v.push(format!("{} {} / {} {}", 1 + r.below(500), c, 1 + r.below(50), b));
+            v.push(r.pick(&["3 km to m", "2 hours 30 minutes", "11:30 EST to CET", "12 + 30%", "20 times 4", "20 kere 4", "3 zork + 5", "1 jan 2020 + 3 months"]).to_string());
+            let k = 2 + r.usize(4);
+            v.truncate(k);
+            if r.chance(1, 4) { v.clear(); }
+            v
+        };
         let total: u64 = cls.iter().map(|c| c.steps).sum();
         let mut budget = total + 30;
         while cls.iter().any(|c| c.steps > 0) && budget > 0 {
@@ -204,11 +224,11 @@ impl Check for C04 {
                     c.lang = r.pick(LANGS).to_string();
                     events.push(Event { actor: who as u8, op: Op::SessionLang { lang: c.lang.clone() }, clock: ClockScript::Frozen { t } });
                 }
-                let text = gen_text(&mut r, &g, &c.lang, &dec, max_lines, &mut c.probes, &mut probe_counter, true, rule_heavy);
+                let text = gen_text(&mut r, &g, &c.lang, &dec, max_lines, &mut c.probes, &mut probe_counter, true, rule_heavy, &sentinels);
                 (Op::SessionText { text }, ClockScript::Frozen { t })
             } else {
                 let mut none = vec![];
-                let mut text = gen_text(&mut r, &g, &cls[who].lang, &dec, max_lines, &mut none, &mut probe_counter, false, rule_heavy);
+                let mut text = gen_text(&mut r, &g, &cls[who].lang, &dec, max_lines, &mut none, &mut probe_counter, false, rule_heavy, &sentinels);
                 // isolation probes: a one-shot text may try to read a probe bound in some session
                 if r.chance(1, 5) {
                     let all: Vec<(u32, f64)> = cls.iter().flat_map(|c| c.probes.iter().cloned()).collect();
@@ -255,12 +275,12 @@ impl Check for C04 {
                             c2.probes.clear();
                             events.push(Event { actor: o as u8, op: Op::SessionNew { lang: c2.lang.clone() }, clock: ClockScript::Frozen { t } });
                         }
-                        let text = gen_text(&mut r, &g, &c2.lang, &dec, max_lines, &mut c2.probes, &mut probe_counter, true, rule_heavy);
+                        let text = gen_text(&mut r, &g, &c2.lang, &dec, max_lines, &mut c2.probes, &mut probe_counter, true, rule_heavy, &sentinels);
                         inner.push(InnerStep { at_call, actor: o as u8, session: true, lang: c2.lang.clone(), text, dt });
                     } else {
                         let mut none = vec![];
                         let lang = r.pick(LANGS).to_string();
-                        let mut text = gen_text(&mut r, &g, &lang, &dec, max_lines, &mut none, &mut probe_counter, false, rule_heavy);
+                        let mut text = gen_text(&mut r, &g, &lang, &dec, max_lines, &mut none, &mut probe_counter, false, rule_heavy, &sentinels);
                         if r.chance(1, 4) {
                             let all: Vec<(u32, f64)> = cls.iter().flat_map(|c| c.probes.iter().cloned()).collect();
                             if !all.is_empty() {
